@@ -213,7 +213,11 @@ func runSeeds(exe string, def *PropDef, repo, vdir string) []mutantResult {
 	metas, _ := filepath.Glob(filepath.Join(vdir, "seeded", "*", "meta.json"))
 	sort.Strings(metas)
 	var out []mutantResult
+	var mu sync.Mutex
+	var wg sync.WaitGroup
+	sem := make(chan struct{}, 6)
 	for _, mf := range metas {
+		mf := mf
 		b, err := os.ReadFile(mf)
 		if err != nil {
 			continue
@@ -226,79 +230,95 @@ func runSeeds(exe string, def *PropDef, repo, vdir string) []mutantResult {
 		if json.Unmarshal(b, &meta) != nil || len(meta.DetectedBy[def.ID]) == 0 {
 			continue
 		}
-		res := mutantResult{ID: "seed:" + meta.ID, Why: "seeded change " + meta.ID + " (independent sub-agent), expected to be reported by " + def.ID}
-		tmp, err := os.MkdirTemp("", "prunnerlint-seed-*")
-		if err != nil {
-			continue
-		}
-		patch := filepath.Join(filepath.Dir(mf), "patch.diff")
-		okCopy := true
-		for _, f := range meta.Files {
-			src, err := os.ReadFile(filepath.Join(repo, f))
+		wg.Add(1)
+		go func() {
+			defer wg.Done()
+			sem <- struct{}{}
+			defer func() { <-sem }()
+			res := mutantResult{ID: "seed:" + meta.ID, Why: "seeded change " + meta.ID + " (independent sub-agent), expected to be reported by " + def.ID}
+			tmp, err := os.MkdirTemp("", "prunnerlint-seed-*")
 			if err != nil {
-				continue // a file the patch creates
+				return
 			}
-			dst := filepath.Join(tmp, f)
-			if os.MkdirAll(filepath.Dir(dst), 0o755) != nil || os.WriteFile(dst, src, 0o644) != nil {
-				okCopy = false
+			patch := filepath.Join(filepath.Dir(mf), "patch.diff")
+			okCopy := true
+			for _, f := range meta.Files {
+				src, err := os.ReadFile(filepath.Join(repo, f))
+				if err != nil {
+					continue // a file the patch creates
+				}
+				dst := filepath.Join(tmp, f)
+				if os.MkdirAll(filepath.Dir(dst), 0o755) != nil || os.WriteFile(dst, src, 0o644) != nil {
+					okCopy = false
+				}
 			}
-		}
-		cmd := exec.Command("patch", "-p1", "-s", "-f", "-d", tmp, "-i", patch)
-		if o, err := cmd.CombinedOutput(); err != nil || !okCopy {
-			res.Status = "skipped"
-			res.Reported = []string{"patch no longer applies to the current tree: " + firstLine(string(o))}
+			cmd := exec.Command("patch", "-p1", "-s", "-f", "-d", tmp, "-i", patch)
+			if o, err := cmd.CombinedOutput(); err != nil || !okCopy {
+				res.Status = "skipped"
+				res.Reported = []string{"patch no longer applies to the current tree: " + firstLine(string(o))}
+				os.RemoveAll(tmp)
+				mu.Lock()
+				out = append(out, res)
+				mu.Unlock()
+				return
+			}
+			files := map[string]string{}
+			for _, f := range meta.Files {
+				if nb, err := os.ReadFile(filepath.Join(tmp, f)); err == nil {
+					files[filepath.Join(repo, f)] = string(nb)
+				}
+			}
 			os.RemoveAll(tmp)
-			out = append(out, res)
-			continue
-		}
-		files := map[string]string{}
-		for _, f := range meta.Files {
-			if nb, err := os.ReadFile(filepath.Join(tmp, f)); err == nil {
-				files[filepath.Join(repo, f)] = string(nb)
+			ovf, _ := os.CreateTemp("", "prunnerlint-overlay-*.json")
+			ob, _ := json.Marshal(files)
+			ovf.Write(ob)
+			ovf.Close()
+			outf, _ := os.CreateTemp("", "prunnerlint-obs-*.json")
+			outf.Close()
+			c := exec.Command(exe, "-property", def.ID, "-repo", repo, "-verif", vdir, "-overlay", ovf.Name(), "-obs-out", outf.Name())
+			o, err := c.CombinedOutput()
+			rb, _ := os.ReadFile(outf.Name())
+			os.Remove(ovf.Name())
+			os.Remove(outf.Name())
+			var v struct {
+				Obs   []Ob   `json:"obs"`
+				Error string `json:"error"`
 			}
-		}
-		os.RemoveAll(tmp)
-		ovf, _ := os.CreateTemp("", "prunnerlint-overlay-*.json")
-		ob, _ := json.Marshal(files)
-		ovf.Write(ob)
-		ovf.Close()
-		outf, _ := os.CreateTemp("", "prunnerlint-obs-*.json")
-		outf.Close()
-		c := exec.Command(exe, "-property", def.ID, "-repo", repo, "-verif", vdir, "-overlay", ovf.Name(), "-obs-out", outf.Name())
-		o, err := c.CombinedOutput()
-		rb, _ := os.ReadFile(outf.Name())
-		os.Remove(ovf.Name())
-		os.Remove(outf.Name())
-		var v struct {
-			Obs   []Ob   `json:"obs"`
-			Error string `json:"error"`
-		}
-		if err != nil || json.Unmarshal(rb, &v) != nil {
-			res.Status = "error"
-			res.Reported = []string{string(o)}
-			out = append(out, res)
-			continue
-		}
-		if v.Error != "" {
-			res.Status = "skipped"
-			res.Reported = []string{"patched tree does not load: " + firstLine(v.Error)}
-			out = append(out, res)
-			continue
-		}
-		for _, ob := range v.Obs {
-			if ob.Verdict == "violation" || ob.Verdict == "undecided" {
-				res.Reported = append(res.Reported, ob.Rule+" @ "+ob.Construct)
+			if err != nil || json.Unmarshal(rb, &v) != nil {
+				res.Status = "error"
+				res.Reported = []string{string(o)}
+				mu.Lock()
+				out = append(out, res)
+				mu.Unlock()
+				return
 			}
-		}
-		if len(res.Reported) > 0 {
-			res.Status = "killed"
-		} else {
-			res.Status = "survived"
-		}
-		if len(res.Reported) > 4 {
-			res.Reported = append(res.Reported[:4], fmt.Sprintf("… and %d more", len(res.Reported)-4))
-		}
-		out = append(out, res)
+			if v.Error != "" {
+				res.Status = "skipped"
+				res.Reported = []string{"patched tree does not load: " + firstLine(v.Error)}
+				mu.Lock()
+				out = append(out, res)
+				mu.Unlock()
+				return
+			}
+			for _, ob := range v.Obs {
+				if ob.Verdict == "violation" || ob.Verdict == "undecided" {
+					res.Reported = append(res.Reported, ob.Rule+" @ "+ob.Construct)
+				}
+			}
+			if len(res.Reported) > 0 {
+				res.Status = "killed"
+			} else {
+				res.Status = "survived"
+			}
+			if len(res.Reported) > 4 {
+				res.Reported = append(res.Reported[:4], fmt.Sprintf("… and %d more", len(res.Reported)-4))
+			}
+			mu.Lock()
+			out = append(out, res)
+			mu.Unlock()
+		}()
 	}
+	wg.Wait()
+	sort.Slice(out, func(i, j int) bool { return out[i].ID < out[j].ID })
 	return out
 }
